@@ -1,5 +1,6 @@
 import NirVerif.Properties.C18
 import NirVerif.Properties.C03
+import NirVerif.Lemmas.Idempotent
 
 /-! # C13 — the dictionary form is a faithful, independent copy
 
@@ -93,6 +94,25 @@ theorem roundtrip (kind : String) (fields : List (String × Val)) (it ot md : Va
   simp only [Except.bind]
   rw [C18.fromDict_generic _ kind (lookup_type_append fields md kind hnt) hw ⟨hk.2.1, hk.2.2.1, hk.2.2.2, hk.1⟩,
     erase_type_append fields md kind hnt]
+
+/-- **Exact round trip**: a node built by the constructor of a class that stores its parameters
+unchanged (Affine, Linear, Scale, Threshold, Delay, I, IF, LI, LIF, SumPool2d, AvgPool2d, Conv1d;
+derived types not passed explicitly) comes back from `from_dict(to_dict(n))` as exactly the same
+node — same fields, same value types, same derived types, same metadata. -/
+theorem roundtrip_exact (kind : String) (kw : List (String × Val)) (n : Node) (hk : kind ∈ simpleKinds)
+    (h : construct kind kw = .ok n)
+    (hnot : lookup "input_type" kw = none ∧ lookup "output_type" kw = none) :
+    (toDict n).bind fromDict = .ok n := by
+  obtain ⟨hkind, hc, he⟩ := construct_kind kind kw n h
+  obtain ⟨hnt, _⟩ := construct_fields_clean kind kw n hk h
+  have hidem := construct_idem kind kw n hk h hnot
+  obtain ⟨hw, hg⟩ := simple_generic kind hk
+  cases n with
+  | mk k f i o m c e =>
+    simp only [Node.kind, Node.children, Node.edges, Node.fields, Node.metadata] at hkind hc he hnt hidem
+    subst hkind hc he
+    rw [roundtrip k f i o m hw hg hnt]
+    exact hidem
 
 /-- Non-vacuity: a Conv1d with an erased (`None`) input shape — which the file form cannot
 carry — goes through the dictionary form and the constructor sees `None` again. -/
